@@ -3,7 +3,7 @@
 A change is kept only if: it applies, the repository suite passed 11/11 with it, its demonstration exits 1 with the change
 and 0 without it.  Run after tools/confirm_mutant.sh.  usage: mk_seeded.py [results.txt]"""
 import os, re, json, shutil, sys, glob
-MUT = "/tmp/mut"; OUT = "/verif/seeded"
+MUT = os.environ.get("MUTDIR", "/tmp/mut"); OUT = "/verif/seeded"
 res = {}
 for l in open(sys.argv[1] if len(sys.argv) > 1 else MUT + "/results.txt"):
     m = re.match(r"(C\d\d) (m\d) (\w+) rc=(\d+)\s*(.*)", l)
@@ -13,12 +13,15 @@ if os.path.exists(MUT + "/resuite_results.txt"):
     for l in open(MUT + "/resuite_results.txt"):
         m = re.match(r"(C\d\d) (m\d) suite2 rc=(\d+) (.*)", l)
         if m: resuite[(m.group(1), m.group(2))] = (int(m.group(3)), m.group(4).strip())
+# second-round changes that turned out to be the same edit as a first-round change for the same property are not kept twice
+DUP = {("C05", "m3"): "C05-m1", ("C06", "m3"): "C06-m1", ("C06", "m4"): "C06-m2", ("C17", "m3"): "C17-m2", ("C18", "m3"): "C18-m1"}
 kept, dropped = [], []
 for d in sorted(glob.glob(MUT + "/C[0-9][0-9]")):
     pid = os.path.basename(d)
-    for mn in ("m1", "m2"):
+    for mn in ("m1", "m2", "m3", "m4"):
         conf = os.path.join(d, mn + "_confirm.txt")
         if not os.path.exists(conf): continue
+        if (pid, mn) in DUP: dropped.append((pid, mn, "same edit as " + DUP[(pid, mn)])); continue
         t = open(conf).read()
         suite_ok = "# TOTAL: 11 # PASS:  11" in t
         note = ""
@@ -39,7 +42,7 @@ for d in sorted(glob.glob(MUT + "/C[0-9][0-9]")):
             for l in open(os.path.join(o, "notes.md")):
                 if l.strip(): title = l.strip().lstrip("# ").strip(); break
         meta = {"id": "%s-%s" % (pid, mn), "property": pid, "title": title, "files": files,
-                "origin": "fresh sub-agent that saw only the property text and a scratch worktree",
+                "origin": "fresh sub-agent that saw only the property text and a scratch worktree" + (" (second round: less obvious places asked for)" if mn in ("m3", "m4") else ""),
                 "suite": "11/11 PASS with the change applied" + (" (" + note + ")" if note else ""),
                 "demonstration": {"with_change": {"exit": 1, "output": dm.group(2).strip().splitlines()[-1] if dm.group(2).strip() else ""},
                                   "without_change": {"exit": 0, "output": dm.group(4).strip().splitlines()[-1] if dm.group(4).strip() else ""},
